@@ -538,3 +538,5 @@ MUTANTS = [
 
 RENAME_FUNCS = [(F, n) for n in ('shift_sequence_times', 'stretch_note_sequence', 'adjust_notesequence_times', 'rectify_beats',
                                  'concatenate_sequences', 'remove_redundant_data', 'repeat_sequence_to_duration')]
+
+EXPLANATION += (' Location-independent additions: RECTIFY/knots-strictly-increasing (sorted/unique typestate of the interpolation knots), UNIFORM/fields-named (every time-bearing container of the schema is named), REPEAT/through-concatenate (must-pass-through), ADJUST/skip definite on approximate equality.')
